@@ -24,10 +24,10 @@ def classify(rec, clauses):
 
 def sig(rec, clauses):
     k = rec.get("k")
-    comp = {"mm": "mm_reader", "bin": "read_dense" if rec.get("dense") else "read_crs", "bits": "roundtrip",
+    comp = {"mm": "mm_reader", "bin": "read_dense" if rec.get("dense") else "read_crs", "bits": "roundtrip", "usedvec": "reader-output-vectors",
             "mmkind": "mm_reader"}.get(k, str(k))
     s = {"component": comp, "class": classify(rec, clauses)}
-    for f in ("fault", "where", "fid", "type", "cont"):
+    for f in ("fault", "where", "fid", "type", "cont", "fmt", "hist"):
         if f in rec:
             s[f] = rec[f]
     return s
@@ -77,13 +77,14 @@ def run(c):
         ])
     rio, rsan, mm_fixed, bin_fixed = stage_a()
 
-    runs = [("mmfault", rio, env, 4000), ("binfault", rio, env, 4000), ("rt", rio, env, 4000), ("bits", rio, env, 4000),
+    runs = [("mmfault", rio, env, 4000), ("binfault", rio, env, 4000), ("rt", rio, env, 4000), ("bits", rio, env, 4000), ("usedvec", rio, env, 4000),
+            ("usedvec", rsan, dict(env, **SAN_ENV), 4000),
             ("mmfault", rsan, dict(env, **SAN_ENV), 4000), ("binfault", rsan, dict(env, **SAN_ENV), 4000)]
 
     def rec(i):
         mode, binary, e, chunk = runs[i]
         return c.record(binary, [mode], env=e, out=c.path("io-%d-%s.ndjson" % (i, mode)), timeout=1500)
-    traces = c.parallel([(lambda i=i: rec(i)) for i in range(len(runs))], max_workers=6)
+    traces = c.parallel([(lambda i=i: rec(i)) for i in range(len(runs))], max_workers=8)
 
     # the transcription of the pinned tree (Checked = FALSE) is expected to violate FaultInv: a model-level
     # finding, turned into a verdict only by the recorded executions below
@@ -112,14 +113,14 @@ def run(c):
         for ln in res["lines"]:
             if '"k":"summary"' in ln:
                 s = json.loads(ln)
-                if san:
+                if san and mode.endswith("fault"):      # the sanitizer fault sweeps print crashing cases only
                     c.evaluations += s["cases"]
                     c.traces += s["cases"] - s["crashed"]
                 c.note("%s%s: %d cases, %d needed process isolation" % (mode, "@asan" if san else "", s["cases"], s["crashed"]))
             elif '"fault":"' in ln and '"fault":"none"' not in ln:
                 r = json.loads(ln)
                 c.nontrivial.add((r["fid"], r["fault"], r["pos"], r["rep"]))
-            elif '"k":"bits"' in ln or '"fault":"none"' in ln:
+            elif '"k":"bits"' in ln or '"fault":"none"' in ln or '"k":"usedvec"' in ln:
                 c.nontrivial.add(hashlib.sha1(ln.encode()).hexdigest()[:12])
         for ln in res["lines"][1:30000:1511]:
             c.sample(ln, limit=6)
